@@ -352,7 +352,33 @@ pub fn level_of(prop: &str) -> &'static str {
     }
 }
 
+/// remove scratch entries of harness processes that no longer exist (killed runs)
+pub fn cleanup_stale() {
+    let base = tmp_base();
+    if let Ok(rd) = std::fs::read_dir(&base) {
+        for e in rd.flatten() {
+            let name = e.file_name().to_string_lossy().to_string();
+            if !name.starts_with("abysim.") {
+                continue;
+            }
+            // abysim.<tag>.<pid>[.<n>][.json] or abysim.<pid>
+            let pid = name.split('.').skip(1).find_map(|p| p.parse::<u32>().ok());
+            if let Some(pid) = pid {
+                if !std::path::Path::new(&format!("/proc/{pid}")).exists() {
+                    let p = e.path();
+                    if p.is_dir() {
+                        let _ = std::fs::remove_dir_all(&p);
+                    } else {
+                        let _ = std::fs::remove_file(&p);
+                    }
+                }
+            }
+        }
+    }
+}
+
 pub fn run_check(cfg: &CheckCfg) -> CheckResult {
+    cleanup_stale();
     if cfg.flavour == "dbg" {
         set_exec_exe(dbg_exe());
     } else {
